@@ -68,10 +68,10 @@ class FixedLengthSequenceEdit(SequenceEdit):
         self._sub_edits: List[Edit] = [from_child.edits(to_child) for from_child, to_child in zip(from_node, to_node)]
 
         if len(from_node) > len(to_node):
-            self.to_remove: Sequence[TreeNode] = from_node.children()[-len(from_node) - len(to_node):]
+            self.to_remove: Sequence[TreeNode] = from_node.children()[len(to_node):]
             self.to_insert: Sequence[TreeNode] = ()
         elif len(to_node) > len(from_node):
-            self.to_insert = to_node.children()[-len(to_node) - len(from_node):]
+            self.to_insert = to_node.children()[len(from_node):]
             self.to_remove = ()
         else:
             self.to_remove = ()
